@@ -189,7 +189,13 @@ theorem deposit_tracks_flux (A al hi frem a0 a1 a2 t : ℝ) (h0 : 0 < a0) (h1 : 
   refine hcomp.congr_deriv ?_
   ring
 
+/-- the class-wise branch used by the closed form is what `IFMR.predict` returns for a progenitor of that class -/
+theorem predict_eq_predictAs (f : IfmrFn ℝ) (m : ℝ) : predict f m = predictAs f (predictType f m) m := by
+  unfold predict predictType predictAs
+  split <;> [rfl; (split <;> rfl)]
+
 structure Statement : Prop where
+  branch : ∀ (f : IfmrFn ℝ) (m : ℝ), predict f m = predictAs f (predictType f m) m
   star_solves : ∀ (A al l a0 a1 a2 t nmin : ℝ), 0 < a0 → 0 < a1 → a2 < 0 → a0 < t → 0 < l → l < mtoFin a0 a1 a2 t →
     nmin < A * PkCore al 1 l (mtoFin a0 a1 a2 t) → (resolution : ℝ) ≤ PkCore al 1 l (mtoFin a0 a1 a2 t) →
     HasDerivAt (fun s => A * PkCore al 1 l (mtoFin a0 a1 a2 s))
@@ -210,6 +216,7 @@ structure Statement : Prop where
     (ii) the deposit is proved segment-wise (class and remnant bin fixed); gluing over the finitely many crossing masses is
     done by the executable model (`closedRemnants`) with crossings supplied as data; (iii) uniqueness of the ODE solution is not proved. -/
 theorem C01_partial : Statement where
+  branch := predict_eq_predictAs
   star_solves := closed_star_solves
   deposit := deposit_tracks_flux
   residue := stars_residue
